@@ -8,7 +8,7 @@ func init() {
 		Decides: "that no EVENT is sent around the publisher-exclusion / filter / topic-match guards of syncPublish and syncPubEvent; that the session shown to the filter, " +
 			"the subscription id, publication id, topic detail and payload of an EVENT have the right provenance; that URI validation precedes the hand-off of SUBSCRIBE and PUBLISH; " +
 			"that the exact/prefix/wildcard tables are selected consistently by match policy; that a new subscription id is generated only on table miss; " +
-			"that UNSUBSCRIBE has effects only for a member and otherwise answers no_such_subscription.",
+			"that UNSUBSCRIBE has effects only for a member and otherwise answers no_such_subscription; that the built-in publish filter can say 'allowed' only after consulting every exclude/eligible list; that a departed session is removed from the broker before its peer is closed.",
 		NotDecided: "exactly-once delivery over histories, correctness of PrefixMatch/WildcardMatch/Allowed themselves (C19), behaviour of user-supplied filters.",
 		Run: runC01,
 	})
